@@ -957,7 +957,7 @@ fn yield_with_contract<T: EventSource>(_r: &T) {
 }
 
 //@ obligation: C02.10
-//@ property: C02 C08 C15
+//@ property: C02 C08 C15 C09 C18
 //@ kind: K1
 //@ complete: yes
 //@ functions: Park::park_timeout, Park::check_park, Park::remove_timeout_handle, Park::set_timeout_handle
